@@ -380,6 +380,9 @@ func (e *Engine) VerifyFunc(c *Contract) (res *FuncResult) {
 	if c.Opts["arith"] == "ranged" {
 		ex.ranged = true
 	}
+	if c.Opts["arith"] == "mulchecked" {
+		ex.arithMul = true // only products get overflow obligations (exact integer arithmetic must not use a wrapping *)
+	}
 	ex.callCells = map[string]*Cell{}
 	ex.resCells = map[string]*Cell{}
 	var scan func(e *SExpr)
